@@ -36,6 +36,9 @@ pub struct Opts {
     pub retention: u64,
     pub sqlite: bool,
     pub backends: Vec<Backend>, // assigned round-robin to parties
+    /// parties whose clients support the optional extension types X (0xF0F2) / Y (0xF0F3); None = everybody
+    pub cap_x: Option<Vec<String>>,
+    pub cap_y: Option<Vec<String>>,
 }
 
 impl Default for Opts {
@@ -49,6 +52,8 @@ impl Default for Opts {
             retention: 3,
             sqlite: false,
             backends: vec![Backend::Openssl],
+            cap_x: None,
+            cap_y: None,
         }
     }
 }
@@ -194,6 +199,13 @@ pub fn make_client(
         .identity_provider(ident.clone())
         .crypto_provider(crypto)
         .extension_type(mls_rs::extension::ExtensionType::new(0xF0F0))
+        .extension_types(
+            [(0xF0F2u16, &opts.cap_x), (0xF0F3u16, &opts.cap_y)]
+                .into_iter()
+                // throw-away identities (not parties of the behaviour) support everything
+                .filter(|(_, l)| l.as_ref().map(|l| l.iter().any(|n| n == name) || !name.starts_with('p')).unwrap_or(true))
+                .map(|(t, _)| mls_rs::extension::ExtensionType::new(t)),
+        )
         .custom_proposal_type(mls_rs::group::proposal::ProposalType::new(0xF0F1))
         .signing_identity(id, sk.clone(), suite)
         .build();
@@ -323,6 +335,7 @@ pub fn classify(e: &MlsError) -> String {
         PubKeyMismatch => "err:decap-wrong-key",
         GroupStorageError(_) | KeyPackageRepoError(_) | PskStoreError(_) => "err:storage",
         IdentityProviderError(_) => "err:rule:identity",
+        RequiredExtensionNotFound(_) | UnsupportedGroupExtension(_) | RequiredProposalNotFound(_) | RequiredCredentialNotFound(_) => "err:rule:caps",
         _ => "",
     };
     if s.is_empty() {
